@@ -17,6 +17,11 @@
 //!     `pr.steputc`; direct oracles: result offset == offset field, result instant == timestamp field,
 //!     result is one of `zone.from_local_datetime(resolved local)`, wall clock agrees with the fields,
 //!     and the expected resolution of derived sets (which candidate, NotEnough, Impossible).
+//!   * `run_seams` (stream `seams:*`, deterministic): every subset of the 14 date fields at the seam days, and
+//!     every present field off by one — digests compared with the model (`pr.seam`) + direct oracles;
+//!   * `run_tz_local` (stream `tzlocal:*`): `to_datetime_with_timezone(&Local)` under TZ = Europe/Berlin,
+//!     America/New_York, Australia/Lord_Howe, Europe/London (1968/1971), per worker thread, around reference
+//!     transitions taken from zdump; compared with the model's step-zone resolver and judged directly.
 use super::c01::{gen_date, gen_year, yof, MAX_YEAR, MIN_YEAR};
 use super::c13::{dump_parsed, err_kind};
 use crate::ctx::*;
@@ -1484,6 +1489,491 @@ fn run_step_zones(c: &mut Ctx) {
     }
 }
 
+
+// ---- `Local` (tz-database zones) as the zone of to_datetime_with_timezone (audit 2, MEDIUM-3) ------
+/// reference transitions `(instant, offset before, offset from then on)` read off `zdump -v` / Python
+/// zoneinfo — NOT through chrono: Berlin 2021 (gap, fold), New York 2021 (gap, fold), Lord Howe 2021
+/// (30-minute fold, gap), London 1968 (gap into BST; the change BST(dst) -> BST(standard time) on
+/// 1968-10-26 23:00 UTC that keeps the offset: a "flat" transition) and 1971 (fold out of it)
+const LOCAL_ZONES: [(&str, &[(i64, i32, i32)]); 4] = [
+    ("Europe/Berlin", &[(1_616_893_200, 3600, 7200), (1_635_642_000, 7200, 3600)]),
+    ("America/New_York", &[(1_615_705_200, -18000, -14400), (1_636_264_800, -14400, -18000)]),
+    ("Australia/Lord_Howe", &[(1_617_462_000, 39600, 37800), (1_633_188_600, 37800, 39600)]),
+    ("Europe/London", &[(-59_004_000, 0, 3600), (-37_242_000, 3600, 3600), (57_722_400, 3600, 0)]),
+];
+fn szg<Z: TimeZone>(z: &DateTime<Z>) -> String {
+    format!("{} {}", sdt(&z.naive_utc()), z.offset().fix().local_minus_utc())
+}
+fn candsg<Z: TimeZone>(m: &LocalResult<DateTime<Z>>) -> Vec<DateTime<Z>> {
+    match m {
+        LocalResult::None => vec![],
+        LocalResult::Single(a) => vec![a.clone()],
+        LocalResult::Ambiguous(a, b) => vec![a.clone(), b.clone()],
+    }
+}
+/// Stream `tzlocal:*`: `Parsed::to_datetime_with_timezone(&Local)` with `TZ` set per worker thread.
+/// Around each reference transition the zone is, for every instant the resolver can ask about, the
+/// one-transition zone `StepZone { t, o1, o2 }`; so the outcome is compared with the model's step-zone
+/// resolver (`pr.tzstep`) AND judged by the direct oracles of `run_step_zones`: result offset == offset
+/// field, result instant == timestamp field (one less for a leap second), result is one of
+/// `Local.from_local_datetime(resolved local)`, result offset is the reference offset at its instant,
+/// wall clock agrees with the supplied fields, and the expected resolution of derived sets.
+fn run_tz_local(c: &mut Ctx) {
+    for (name, trs) in LOCAL_ZONES {
+        let old = std::env::var("TZ").ok();
+        std::env::set_var("TZ", name);
+        let joined = std::thread::scope(|s| s.spawn(|| tz_local_zone(&mut *c, name, trs)).join().is_ok());
+        match old {
+            Some(v) => std::env::set_var("TZ", v),
+            None => std::env::remove_var("TZ"),
+        }
+        if !joined {
+            c.fail("tzlocal: worker thread panicked", name);
+        }
+    }
+}
+fn tz_local_zone(c: &mut Ctx, name: &str, trs: &[(i64, i32, i32)]) {
+    use chrono::Local;
+    let tz = Local;
+    // the zone file must be the one the reference was read from (else: counted, not judged)
+    for &(t, o1, o2) in trs {
+        let at = |u: i64| tz.offset_from_utc_datetime(&DateTime::from_timestamp(u, 0).unwrap().naive_utc()).fix().local_minus_utc();
+        if at(t - 1) != o1 || at(t) != o2 || at(t - 40 * 86400) != o1 || at(t + 40 * 86400) != o2 {
+            c.count(&format!("tzlocal:zone-unavailable:{}", name));
+            c.sample(&format!("tzlocal: TZ={} does not show the reference transition at {} ({} -> {})", name, t, o1, o2));
+            return;
+        }
+    }
+    let n = c.n(1200, 12000);
+    for &(tt, ro1, ro2) in trs {
+        let zone = StepZone { t: tt, o1: ro1, o2: ro2 };
+        let kind = if ro1 > ro2 { "fold" } else if ro1 < ro2 { "gap" } else { "flat" };
+        let (o1, o2) = (zone.o1 as i64, zone.o2 as i64);
+        let w = (o1 - o2).abs();
+        for k in 0..n {
+            let place = c.rng.below(8);
+            let mut gap_local: Option<i64> = None;
+            let u: i64 = match (place, kind) {
+                (0, "fold") => zone.t - 1 - c.rng.below(w as u64) as i64,
+                (1, "fold") => zone.t + c.rng.below(w as u64) as i64,
+                (0 | 1, "gap") => {
+                    gap_local = Some(zone.t + o1 + c.rng.below(w as u64) as i64);
+                    zone.t
+                }
+                (2 | 3, _) => zone.t + *c.rng.pick(&[-1i64, 0, 1, -w, -w - 1, -w + 1, w, w - 1, w + 1, -2, 2]),
+                (4, _) => zone.t + *c.rng.pick(&[-1i64, 1]) * c.rng.range(100_000, 1_700_000), // up to 20 days away
+                (5, _) => zone.t + c.rng.range(-2 * w - 3, 2 * w + 3),
+                _ => zone.t + c.rng.range(-100_000, 100_000),
+            };
+            let mut nano = gen_nano(c);
+            let mode = c.rng.below(10);
+            let mut m = [false; NF];
+            match mode {
+                0..=5 => {
+                    for i in [HDIV, HMOD, MIN, SEC, NANO] {
+                        m[i] = true;
+                    }
+                    match c.rng.below(4) {
+                        0 => m[ORD] = true,
+                        1 => {
+                            m[WSUN] = true;
+                            m[WDAY] = true;
+                        }
+                        _ => {
+                            m[MONTH] = true;
+                            m[DAY] = true;
+                        }
+                    }
+                    m[YEAR] = true;
+                }
+                6 | 7 => {
+                    m[TS] = true;
+                    if c.rng.chance(1, 2) {
+                        m[NANO] = true;
+                    } else {
+                        nano = 0;
+                    }
+                }
+                _ => m = gen_mask(c),
+            }
+            let real_off = zone.offset_at(u);
+            let (l, real): (NaiveDateTime, bool) = match gap_local {
+                Some(s) => (DateTime::from_timestamp(s, nano).unwrap().naive_utc(), false),
+                None => {
+                    let s = u + real_off as i64;
+                    if m[SEC] && s.rem_euclid(60) == 59 && c.rng.chance(1, 3) {
+                        nano += 1_000_000_000;
+                    }
+                    if !m[SEC] && mode >= 8 {
+                        nano = if m[NANO] { nano } else { 0 };
+                    }
+                    (DateTime::from_timestamp(s, nano).unwrap().naive_utc(), true)
+                }
+            };
+            let ls = l.and_utc().timestamp();
+            let in_fold = zone.in_fold(ls);
+            let all = fields_of(&l, real_off);
+            let mut f: Fields = [None; NF];
+            for i in 0..NF {
+                if m[i] {
+                    f[i] = all[i];
+                }
+            }
+            f[OFF] = match c.rng.below(5) {
+                0 | 1 => None,
+                2 => Some(o1),
+                3 => Some(o2),
+                _ => Some(match c.rng.below(4) {
+                    0 => o1 + 1,
+                    1 => o2 - 1,
+                    2 => 0,
+                    _ => gen_offset(c) as i64,
+                }),
+            };
+            let other_u = if real_off as i64 == o1 { u + (o1 - o2) } else { u - (o1 - o2) };
+            let tsv = if m[TS] && mode >= 6 && mode <= 7 { 1 } else { c.rng.below(8) };
+            f[TS] = match tsv {
+                0 | 2 | 3 => None,
+                1 | 4 => Some(if real { u } else { ls - *c.rng.pick(&[o1, o2]) }),
+                5 => Some(other_u),
+                6 => Some(u + *c.rng.pick(&[1i64, -1])),
+                _ => Some(u + c.rng.range(-2 * w - 2, 2 * w + 2)),
+            };
+            let p = build(&f);
+            let dump = dump_parsed(&p);
+            let ztxt = format!("{} {} {}", zone.t, zone.o1, zone.o2);
+            let cls = if !real {
+                "gap"
+            } else if in_fold {
+                if real_off as i64 == o1 {
+                    "fold-first"
+                } else {
+                    "fold-second"
+                }
+            } else if (u - zone.t).abs() <= w + 2 {
+                "boundary"
+            } else {
+                "away"
+            };
+            // The wall-clock second `t + o1` (the second that ENDS the repeated interval, resp. the first skipped
+            // one) is the boundary second C05's statement excepts: `Local` answers it Ambiguous (fold) / Single
+            // (gap) with a candidate that does not read it, the step zone of the model answers from first
+            // principles.  Cases whose wall clock — `l`, or the timestamp field seen through either offset — is
+            // that second are only judged by the oracles that hold for any zone answer.
+            let bsec = zone.t + o1;
+            let excepted = kind != "flat" && (ls == bsec || f[TS].map_or(false, |g| g + o1 == bsec || g + o2 == bsec || g + o1 - 1 == bsec || g + o2 - 1 == bsec));
+            if excepted {
+                c.count("tzlocal:boundary-second(excepted by C05)");
+            }
+            // ---- the zone itself: Local's lookup for this wall clock against the reference transition ----
+            if k % 4 == 0 && !excepted {
+                let ml = guard(|| tz.from_local_datetime(&l));
+                let sm = match &ml {
+                    Ok(LocalResult::None) => "none".to_string(),
+                    Ok(LocalResult::Single(a)) => format!("single {}", szg(a)),
+                    Ok(LocalResult::Ambiguous(a, b)) => format!("ambiguous {} {}", szg(a), szg(b)),
+                    Err(()) => "panic".into(),
+                };
+                c.op(&format!("pr.steplocal {} {}", ztxt, sdt(&l)), &sm);
+                c.count(&format!("tzlocal:zone:local:{}", &sm[..4]));
+            }
+            // ---- the resolver ----
+            let r = guard(|| p.to_datetime_with_timezone(&tz));
+            let s = show(r.clone(), szg);
+            if !excepted {
+                c.op(&format!("pr.tzstep {} {}", dump, ztxt), &s);
+            }
+            c.count(&format!("tzlocal:{}:{}:{}:{}", name, kind, cls, kind_of(&s)));
+            if k < 1 {
+                c.sample(&format!("TZ={} [{}] ({}, {}) -> {}", name, dump, kind, cls, s));
+            }
+            if r.is_err() {
+                c.fail("to_datetime_with_timezone (Local) panicked", &format!("TZ={} [{}]", name, dump));
+            }
+            if let Ok(Ok(v)) = &r {
+                let voff = v.offset().fix().local_minus_utc() as i64;
+                if f[OFF].map_or(false, |o| o != voff) {
+                    c.fail("to_datetime_with_timezone (Local): result offset differs from the supplied offset field", &format!("TZ={} [{}] -> {}", name, dump, s));
+                }
+                if let Some(g) = f[TS] {
+                    let t = v.timestamp();
+                    if !(g == t || (v.nanosecond() >= 1_000_000_000 && g == t + 1)) {
+                        c.fail("to_datetime_with_timezone (Local): result contradicts the timestamp field", &format!("TZ={} [{}] -> {} (timestamp {})", name, dump, s, t));
+                    }
+                }
+                if !excepted && voff != zone.offset_at(v.timestamp()) as i64 {
+                    c.fail("to_datetime_with_timezone (Local): result offset is not the zone's reference offset at the result instant", &format!("TZ={} [{}] -> {}", name, dump, s));
+                }
+                let guessed = match f[TS] {
+                    Some(g) => DateTime::from_timestamp(g, f[NANO].unwrap_or(0) as u32).map(|d| tz.offset_from_utc_datetime(&d.naive_utc()).fix().local_minus_utc()),
+                    None => Some(0),
+                };
+                match guessed.and_then(|g| p.to_naive_datetime_with_offset(g).ok()) {
+                    Some(res) => {
+                        let cs = candsg(&tz.from_local_datetime(&res));
+                        if !cs.iter().any(|x| x.naive_utc() == v.naive_utc() && x.offset().fix() == v.offset().fix()) {
+                            c.fail("to_datetime_with_timezone (Local): result is not a candidate of Local.from_local_datetime(resolved local)", &format!("TZ={} [{}] -> {} (local {})", name, dump, s, res));
+                        }
+                        if v.naive_local() != res {
+                            c.fail("to_datetime_with_timezone (Local): wall clock of the result is not the resolved local date-time", &format!("TZ={} [{}] -> {} (local {})", name, dump, s, res));
+                        }
+                    }
+                    None => c.fail("to_datetime_with_timezone (Local): Ok although the naive resolution fails", &format!("TZ={} [{}] -> {}", name, dump, s)),
+                }
+                let wl = v.naive_local();
+                if let Some(wf) = date_agrees(&f, &wl.date()) {
+                    c.fail("to_datetime_with_timezone (Local): date contradicts a supplied field", &format!("field {} of TZ={} [{}] -> {}", wf, name, dump, s));
+                }
+                let mut ft = f;
+                let t = wl.time();
+                if f[TS].is_some() {
+                    if ft[HDIV].is_none() {
+                        ft[HDIV] = Some((t.hour() / 12) as i64);
+                    }
+                    if ft[HMOD].is_none() {
+                        ft[HMOD] = Some((t.hour() % 12) as i64);
+                    }
+                    if ft[MIN].is_none() {
+                        ft[MIN] = Some(t.minute() as i64);
+                    }
+                    if ft[SEC].is_none() {
+                        ft[SEC] = Some(t.second() as i64);
+                    }
+                }
+                if let Some(wf) = time_agrees(&ft, &t) {
+                    c.fail("to_datetime_with_timezone (Local): time contradicts a supplied field", &format!("field {} of TZ={} [{}] -> {}", wf, name, dump, s));
+                }
+            }
+            // ---- expected resolution of derived sets (complete date and time, or the timestamp alone) ----
+            if mode <= 7 && !excepted {
+                let render = |off: i64| -> String {
+                    let ud = l.checked_sub_offset(FixedOffset::east_opt(off as i32).unwrap()).unwrap();
+                    format!("ok {} {}", sdt(&ud), off)
+                };
+                let ro = real_off as i64;
+                let oo = if ro == o1 { o2 } else { o1 };
+                let want: Option<String> = if !real {
+                    if f[TS].is_none() {
+                        Some("err Impossible".into())
+                    } else {
+                        None
+                    }
+                } else if mode >= 6 && f[TS] != Some(u) {
+                    None
+                } else if f[TS] == Some(u) {
+                    match f[OFF] {
+                        None => Some(render(ro)),
+                        Some(o) if o == ro => Some(render(ro)),
+                        Some(_) => Some("err Impossible".into()),
+                    }
+                } else if f[TS].is_none() {
+                    match f[OFF] {
+                        None => Some(if in_fold { "err NotEnough".into() } else { render(ro) }),
+                        Some(o) if o == ro => Some(render(ro)),
+                        Some(o) if o == oo && in_fold => Some(render(oo)),
+                        Some(_) => Some("err Impossible".into()),
+                    }
+                } else {
+                    None
+                };
+                if let Some(want) = want {
+                    c.count(&format!("tzlocal:expected:{}:{}", cls, kind_of(&want)));
+                    if s != want {
+                        c.fail("to_datetime_with_timezone (Local): derived fields resolve wrongly", &format!("TZ={} [{}] ({}, local {}) -> {} (expected {})", name, dump, cls, l, s, want));
+                    }
+                }
+            }
+        }
+    }
+}
+
+// ---- deterministic seams stream (audit 2, MEDIUM-1 interim) ---------------------------------------
+/// the years whose first / last days and 28 Feb .. 1 Mar are the seam days: both range ends (ISO year
+/// 262143 / -262144 at the ends), year 0 and its neighbours (ISO year -1), the century seams, the
+/// 1970 / 2069 pivot of the two-digit year
+fn seam_years() -> Vec<i32> {
+    let mut v = vec![MIN_YEAR, MIN_YEAR + 1];
+    v.extend(-3..=3);
+    v.extend(98..=101);
+    v.extend(1968..=1972);
+    v.extend(1999..=2001);
+    v.extend(2067..=2072);
+    v.extend(9998..=10001);
+    v.extend([MAX_YEAR - 1, MAX_YEAR]);
+    v
+}
+fn seam_code(r: &Result<ParseResult<NaiveDate>, ()>) -> u64 {
+    match r {
+        Err(()) => 3,
+        Ok(Err(e)) => match err_kind(e).as_str() {
+            "NotEnough" => 0,
+            "Impossible" => 1,
+            "OutOfRange" => 2,
+            _ => 4,
+        },
+        Ok(Ok(d)) => 5 + (yof(d) + 2147483648) as u64,
+    }
+}
+#[derive(Default)]
+struct SeamAcc {
+    h: u64,
+    n: [u64; 5], // ok, NotEnough, Impossible, OutOfRange, other
+}
+impl SeamAcc {
+    fn push(&mut self, code: u64) {
+        self.h = (self.h * 1000003 + code) % 2147483647;
+        let k = match code {
+            0 => 1,
+            1 => 2,
+            2 => 3,
+            3 | 4 => 4,
+            _ => 0,
+        };
+        self.n[k] += 1;
+    }
+    fn show(&self) -> String {
+        format!("{} {} {} {} {} {}", self.h, self.n[0], self.n[1], self.n[2], self.n[3], self.n[4])
+    }
+}
+fn date_tokens(all: &Fields) -> String {
+    (0..14).map(|i| all[i].map_or("-".to_string(), |v| v.to_string())).collect::<Vec<_>>().join(" ")
+}
+/// Stream `seams:*`: EVERY subset of the 14 date fields (2^14) of each seam day, resolved with the crate;
+/// then, for fewer days, every subset with every present field moved by +1 / -1.  Correspondence: the
+/// model computes the same digest of all outcomes (`pr.seam`).  Direct oracles: a determinate and
+/// sufficient subset resolves to exactly the day, an insufficient one is NotEnough, century-only is
+/// NotEnough, every success agrees with every supplied field, nothing panics.  Quick tier: one residue
+/// class of the masks per day (the class rotates with the day), thorough: all of them.
+fn run_seams(c: &mut Ctx) {
+    let years = seam_years();
+    let mut days: Vec<NaiveDate> = vec![];
+    let mut pert_days: Vec<NaiveDate> = vec![];
+    for &y in &years {
+        let last = NaiveDate::from_ymd_opt(y, 12, 31).unwrap().ordinal();
+        for o in (1..=8).chain(59..=61).chain(last - 8..=last) {
+            days.push(NaiveDate::from_yo_opt(y, o).unwrap());
+        }
+        pert_days.push(NaiveDate::from_yo_opt(y, 1).unwrap());
+        pert_days.push(NaiveDate::from_yo_opt(y, last).unwrap());
+        if [MIN_YEAR, -1, 0, 100, 1970, 2000, 2069, 2070, 10000, MAX_YEAR].contains(&y) {
+            pert_days.push(NaiveDate::from_yo_opt(y, 60).unwrap());
+        }
+    }
+    let stride = c.n(4, 1) as u64;
+    let pstride = c.n(16, 1) as u64;
+    let mut cnt: std::collections::BTreeMap<&'static str, u64> = Default::default();
+    for (k, d) in days.iter().enumerate() {
+        let all = fields_of(&d.and_time(NaiveTime::MIN), 0);
+        let phase = k as u64 % stride;
+        let mut acc = SeamAcc::default();
+        for mbits in 0u32..(1 << 14) {
+            if mbits as u64 % stride != phase {
+                continue;
+            }
+            let mut f: Fields = [None; NF];
+            let mut m = [false; NF];
+            for i in 0..14 {
+                if mbits >> i & 1 == 1 && all[i].is_some() {
+                    f[i] = all[i];
+                    m[i] = true;
+                }
+            }
+            let p = build(&f);
+            let r = guard(|| p.to_naive_date());
+            acc.push(seam_code(&r));
+            let gy = group(&m, YEAR, d.year() as i64);
+            let gi = group(&m, IYEAR, d.iso_week().year() as i64);
+            let det = |g: Grp| g == Grp::Determinate || g == Grp::Empty;
+            let kind: &'static str = match &r {
+                Err(()) => {
+                    c.fail("seams: to_naive_date panicked", &dump_parsed(&p));
+                    "panic"
+                }
+                Ok(Ok(got)) => {
+                    if let Some(w) = date_agrees(&f, got) {
+                        c.fail("seams: to_naive_date result contradicts a supplied field", &format!("field {} of [{}] -> {}", w, dump_parsed(&p), got));
+                    }
+                    "ok"
+                }
+                Ok(Err(_)) => "err",
+            };
+            if gy == Grp::CenturyOnly || gi == Grp::CenturyOnly {
+                *cnt.entry("seams:subsets:century-only").or_default() += 1;
+                if seam_code(&r) != 0 {
+                    c.fail("seams: century without two-digit year must be NotEnough", &format!("[{}]", dump_parsed(&p)));
+                }
+            } else if det(gy) && det(gi) {
+                if date_sufficient(&m, gy, gi) {
+                    *cnt.entry("seams:subsets:sufficient").or_default() += 1;
+                    if r != Ok(Ok(*d)) {
+                        c.fail("seams: determinate and sufficient date fields of one day do not resolve to that day", &format!("[{}] day {} -> {}", dump_parsed(&p), d, show(r.clone(), |x| x.to_string())));
+                    }
+                } else {
+                    *cnt.entry("seams:subsets:insufficient").or_default() += 1;
+                    if seam_code(&r) != 0 {
+                        c.fail("seams: insufficient date fields of one day must be NotEnough", &format!("[{}] day {} -> {}", dump_parsed(&p), d, show(r.clone(), |x| x.to_string())));
+                    }
+                }
+            } else {
+                *cnt.entry(if kind == "ok" { "seams:subsets:pivot-miss:ok" } else { "seams:subsets:pivot-miss:err" }).or_default() += 1;
+            }
+        }
+        c.op(&format!("pr.seam {} {} {} 0", date_tokens(&all), stride, phase), &acc.show());
+        if k < 1 {
+            c.sample(&format!("seams {} stride {} phase {} -> {}", d, stride, phase, acc.show()));
+        }
+    }
+    for (k, d) in pert_days.iter().enumerate() {
+        let all = fields_of(&d.and_time(NaiveTime::MIN), 0);
+        let phase = k as u64 % pstride;
+        let mut acc = SeamAcc::default();
+        for mbits in 0u32..(1 << 14) {
+            if mbits as u64 % pstride != phase {
+                continue;
+            }
+            let mut f: Fields = [None; NF];
+            for i in 0..14 {
+                if mbits >> i & 1 == 1 {
+                    f[i] = all[i];
+                }
+            }
+            for i in 0..14 {
+                if mbits >> i & 1 == 0 {
+                    continue;
+                }
+                let Some(v) = all[i] else { continue };
+                for delta in [1i64, -1] {
+                    let w = if i == WDAY { (v + delta).rem_euclid(7) } else { v + delta };
+                    if i >= 6 && w < 0 {
+                        continue;
+                    }
+                    let mut g = f;
+                    g[i] = Some(w);
+                    let p = build(&g);
+                    let r = guard(|| p.to_naive_date());
+                    acc.push(seam_code(&r));
+                    match &r {
+                        Err(()) => c.fail("seams: to_naive_date panicked (one field off by one)", &dump_parsed(&p)),
+                        Ok(Ok(got)) => {
+                            *cnt.entry("seams:off-by-one:ok").or_default() += 1;
+                            if let Some(wf) = date_agrees(&g, got) {
+                                c.fail("seams: to_naive_date result contradicts a supplied field (one field off by one)", &format!("field {} of [{}] -> {}", wf, dump_parsed(&p), got));
+                            }
+                        }
+                        Ok(Err(_)) => *cnt.entry("seams:off-by-one:err").or_default() += 1,
+                    }
+                }
+            }
+        }
+        c.op(&format!("pr.seam {} {} {} 1", date_tokens(&all), pstride, phase), &acc.show());
+    }
+    for (k, v) in cnt {
+        c.count_n(k, v);
+    }
+    c.count_n("seams:days", days.len() as u64);
+    c.count_n("seams:off-by-one:days", pert_days.len() as u64);
+}
+
 pub fn run(c: &mut Ctx) {
     crate::aliases::c14(c);
     let n = c.n(100_000, 1_000_000);
@@ -1554,6 +2044,38 @@ pub fn run(c: &mut Ctx) {
             Case { f, real: None, mask: m, class: if directed { "random-small" } else { "random" }, hint: None, plus_one: None }
         };
         c.count(&format!("fields:{:02}", case.f.iter().filter(|x| x.is_some()).count()));
+        // 1 in 8 derived cases: the same record through the 22 SETTERS (audit 2, LOW-6) — `set_hour12(12)` stores
+        // 0, `set_hour` stores both halves, the `i64` arguments are narrowed — must be the record built through
+        // the public fields, so everything the resolvers are shown to do for it holds for parsed input too
+        if case.real.is_some() && k % 16 == 0 {
+            let f = &case.f;
+            let mut p2 = Parsed::new();
+            let mut all_ok = true;
+            let via_hour = f[HDIV].is_some() && f[HMOD].is_some() && c.rng.chance(1, 2);
+            for i in 0..NF {
+                let Some(v) = f[i] else { continue };
+                let r = match i {
+                    HDIV | HMOD if via_hour => {
+                        if i == HDIV {
+                            p2.set_hour(f[HDIV].unwrap() * 12 + f[HMOD].unwrap())
+                        } else {
+                            Ok(())
+                        }
+                    }
+                    HMOD => p2.set_hour12(if v == 0 { 12 } else { v }),
+                    _ => setter(&mut p2, i, v),
+                };
+                all_ok &= r.is_ok();
+            }
+            c.count(if via_hour { "setters-then-resolve:via-set_hour" } else { "setters-then-resolve:via-ampm-hour12" });
+            if !all_ok || p2 != build(f) {
+                c.fail("a record filled through the setters differs from the record built through the public fields", &format!("[{}] vs [{}]", dump_parsed(&p2), dump_parsed(&build(f))));
+            }
+            let (l, off) = case.real.unwrap();
+            if p2.to_naive_date() != build(f).to_naive_date() || p2.to_naive_time() != build(f).to_naive_time() || p2.to_naive_datetime_with_offset(off) != build(f).to_naive_datetime_with_offset(off) {
+                c.fail("resolvers differ between the setter-built and the field-built record", &format!("[{}] real {}", dump_parsed(&p2), l));
+            }
+        }
         let offs = offsets_for(c, case.real.map(|r| r.1).or(case.hint));
         run_case(c, &case, &offs);
         if k < 4 {
@@ -1664,4 +2186,6 @@ pub fn run(c: &mut Ctx) {
     run_set_twice(c);
     run_hour_cross(c);
     run_step_zones(c);
+    run_seams(c);
+    run_tz_local(c);
 }
